@@ -169,12 +169,13 @@ def run(pid, tier, replay=None):
     plan = [("two_forked", 2, 1, 2, 900, True), ("two_side_branch_at_server", 2, 1, 2, 900, True), ("two_empty_vs_full", 2, 1, 2, 900, True),
             ("line3", 2, 1, 2, 900, not quick), ("triangle3", 2, 1, 2, 900, False)]
     if not quick:
-        plan += [("two_forked", 2, 2, 2, 1500, True), ("two_forked", 2, 3, 2, 2400, True), ("line3", 2, 1, 3, 1800, True), ("triangle3", 2, 1, 2, 1800, True)]
+        plan += [("two_forked", 2, 2, 2, 600, True), ("two_forked", 2, 3, 2, 600, True), ("line3", 2, 1, 3, 600, True), ("triangle3", 2, 1, 2, 600, True)]
     batches = {}
     for (uname, batch, k, r, tmo, exhaustive) in plan:
         parent, init, peers = UNIVERSES[uname]
         defs = tla_defs(parent, init, peers)
         c = consts(parent, init, peers, batch, k, r)
+        chk.mark("plan")
         if exhaustive:
             res = tracecheck.model("MC_Net", "Spec", c, invariants=invs, workers=16, timeout=tmo, view="View", extra_defs=defs)
             if getattr(res, "timed_out", False):
@@ -207,6 +208,7 @@ def run(pid, tier, replay=None):
             batches[uname] = (hs, batch)
 
     # ---- (b) spec -> code
+    chk.mark("design level (last plan entry)")
     tid = 0
     for uname, (hs, batch) in batches.items():
         parent, init, peers = UNIVERSES[uname]
@@ -231,7 +233,8 @@ def run(pid, tier, replay=None):
         judge(chk, traces, parent, init, peers, batch)
 
     # ---- (c) randomized schedules, bigger universes
-    nrand = 12 if quick else 150
+    chk.mark("spec->code replay + validation")
+    nrand = 12 if quick else 60
     traces_by = {}
     for i in range(nrand):
         kind = ["line_deep", "deep_fork", "multi_batch", "three_nodes", "small", "line_deep"][i % 6] if i < 6 else \
@@ -319,8 +322,10 @@ def run(pid, tier, replay=None):
             chk.case((kind, i), nontrivial=True)
         finally:
             run_.close()
+    chk.mark("randomized schedules run")
     for key, (parent, init, peers, batch, traces) in traces_by.items():
         judge(chk, traces, parent, init, peers, batch)
+    chk.mark("randomized schedules validated")
     chk.sample({"source": "randomized schedule", "universe": kind, "events": [[e["a"], e["n"], e["m"]] for e in traces[0]["events"][:15]]})
     # ---- (e) the repository's own integration tests with the verification hooks on: real threads, real sockets.
     #      Each node's event log (every handled sync message, every periodic step that acted) is validated locally against Net:
@@ -347,6 +352,7 @@ def run(pid, tier, replay=None):
                          "line/triangle); non-trivial = contains a timer action")
     chk.assumptions += ["liveness in bounded form: convergence is judged at states reached by fair quiescent rounds that have stopped changing anything (a fixpoint of fair rounds that is "
                         "not converged never converges)", "in-memory FIFO links, shared virtual clock; random.choice of the fetch step is dictated by the schedule"]
+    chk.mark("hooked integration tests")
     return chk.finish()
 
 
